@@ -13,6 +13,13 @@ def three_members():
     return [a, b, c]
 
 
+def _plain3():
+    return [b"first member data\n" * 3, cli.blob("-lh5-", 900, 2)[0], cli.blob("-lz5-", 400, 3)[0]]
+
+
+PLAIN3 = _plain3()
+
+
 def corrupt(member, how):
     m = bytearray(member)
     if how == "crc":
@@ -71,10 +78,21 @@ def run_case(runner, space, case):
         filters = [f.encode() for f in case.get("filters", [])]
         from vlib import listrender
         selected = [i for i in range(3) if not filters or any(listrender.glob_match(f, names[i]) for f in filters)]
-        r = runner.run(arc, [case["cmd"], "../archive.lzh"] + filters, stdin=b"", want_trees=False)
+        extracting = case["cmd"][0] in "xe"
+        blocked = case.get("blocked", 0)
+        # 'blocked': a directory already sits where the member's file is to be created
+        pre = [[names[i].decode(), "d", b"", 0o755, 900000000] for i in range(3) if blocked & (1 << i)]
+        r = runner.run(arc, [case["cmd"], "../archive.lzh"] + filters, stdin=b"", pre=pre, want_trees=extracting)
         good, bad = parse_names(r.stdout, None, None)
-        exp_bad = [i for i in selected if case["mask"] & (1 << i)]
-        exp_good = [i for i in selected if not case["mask"] & (1 << i)]
+        if extracting:
+            # whatever is reported as extracted must be on disk with exactly the member's bytes
+            for i in selected:
+                if names[i] in good:
+                    node = r.tree.get(names[i])
+                    if node is None or node[0] != "f" or node[3] != PLAIN3[i]:
+                        viol.append(("c07-cli-melted-without-file", "%s: %r is reported Melted but the file %s" % (case["cmd"], names[i], "is missing or not a file" if node is None or node[0] != "f" else "holds other bytes (%d instead of %d)" % (len(node[3] or b""), len(PLAIN3[i])))))
+        exp_bad = [i for i in selected if (case["mask"] | blocked) & (1 << i)]
+        exp_good = [i for i in selected if not (case["mask"] | blocked) & (1 << i)]
         quiet2 = "q2" in case["cmd"] or case["cmd"].endswith("q")
         if not quiet2:
             for i in exp_good:
@@ -143,6 +161,10 @@ def cases_c07(thorough):
                     yield {"mask": mask, "how": how, "cmd": cmd, "filters": filters}
 
 
+    for blocked in range(1, 8):
+        for cmd in ("xf", "xq1", "ef", "xfq0"):       # forms that do not prompt about the existing path
+            yield {"mask": 0, "how": "crc", "cmd": cmd, "blocked": blocked}
+        yield {"mask": blocked ^ 7, "how": "crc", "cmd": "xf", "blocked": blocked}
     for n, bads in ((300, (0, 1, 2, 127, 128, 129, 255, 256, 257, 300)), (512, (256, 511, 512)), (1024 if thorough else 0, (512, 768, 1024))):
         for bad in bads:
             for cmd in ("t", "tq2", "xf", "xfq1") if n else ():
